@@ -111,6 +111,20 @@ WideAdd(x, y) ==
   IN <<s1 % 65536, s2 % 65536, s3 % 65536, s4 % 65536>>
 RECURSIVE WideSum(_)
 WideSum(q) == IF q = <<>> THEN WideZero ELSE WideAdd(WideSum(Tail(q)), Head(q))
+\* the same sum with one more limb in front (sign extension for signed dtypes): tells whether the true total fits in 64 bits.
+\* Totals that do not fit are outside the claim (numpy wraps; "the sum" of the property has no 64-bit value then).
+WideExt(x, signed) == <<IF signed /\ x[1] >= 32768 THEN 65535 ELSE 0>> \o x
+WideAdd5(x, y) ==
+  LET s5 == x[5] + y[5]
+      s4 == x[4] + y[4] + s5 \div 65536
+      s3 == x[3] + y[3] + s4 \div 65536
+      s2 == x[2] + y[2] + s3 \div 65536
+      s1 == x[1] + y[1] + s2 \div 65536
+  IN <<s1 % 65536, s2 % 65536, s3 % 65536, s4 % 65536, s5 % 65536>>
+RECURSIVE WideSum5(_, _)
+WideSum5(q, signed) == IF q = <<>> THEN <<0, 0, 0, 0, 0>> ELSE WideAdd5(WideSum5(Tail(q), signed), WideExt(Head(q), signed))
+WideFits(q, dt) == LET s == WideSum5(q, dt = "i8") IN
+                   IF dt = "i8" THEN s[1] = (IF s[2] >= 32768 THEN 65535 ELSE 0) ELSE s[1] = 0
 
 \* ---- casting a value of dtype a to dtype b (ndarray.astype); claimed only where CastOK
 Cast(a, b, v) ==
